@@ -187,7 +187,7 @@ Proof.
   induction g as [n|q|f r IHf IHr] using gexpr_ind'; cbn [gsy gval]; try reflexivity.
   destruct (sy_flat_correct (gsy fd f) (map (fun p => (fst p, gsy fd (snd p))) r)) as (res & -> & Hres).
   rewrite Hres. apply std_proper_rest; [|reflexivity|exact IHf].
-  induction IHr as [|p r Hp _ IH]; cbn; [constructor|constructor; [split; [reflexivity|exact Hp]|exact IH]].
+  clear Hres. induction IHr as [|p r Hp _ IH]; cbn; [constructor|constructor; [split; [reflexivity|exact Hp]|exact IH]].
 Qed.
 
 (* ------------------------------------------------------------------ 2. the builder refines the D machine *)
@@ -296,7 +296,14 @@ Qed.
 
 Lemma gatom_seg f r : gatom (GSeg f r) = TOper OLp :: (gatom f ++ grest r) ++ [TOper ORp].
 Proof.
-  cbn [gatom]. do 3 f_equal. induction r as [|[o a] r IH]; [reflexivity|]. rewrite grest_cons, <- IH. reflexivity.
+  cbn [gatom].
+  assert (E : forall r0, (fix rest (r : list (bop * gexpr)) : list tok :=
+                            match r with
+                            | [] => []
+                            | (o, a) :: r' => TOper (oper_of_bop o) :: gatom a ++ rest r'
+                            end) r0 = grest r0).
+  { induction r0 as [|[o a] r0 IH]; [reflexivity|]. rewrite grest_cons, <- IH. reflexivity. }
+  rewrite E. reflexivity.
 Qed.
 
 Lemma atom_all : forall g, atom_ok g.
@@ -393,7 +400,7 @@ Fixpoint flat (lvl : nat) (e : expr) : seg :=
 Definition to_g (e : expr) : gexpr := GSeg (fst (flat 0 e)) (snd (flat 0 e)).
 
 Lemma grest_app r1 r2 : grest (r1 ++ r2) = grest r1 ++ grest r2.
-Proof. induction r1 as [|[o a] r1 IH]; [reflexivity|]. cbn [app]. rewrite !grest_cons, IH, <- app_assoc. reflexivity. Qed.
+Proof. induction r1 as [|[o a] r1 IH]; [reflexivity|]. cbn [app]. rewrite !grest_cons, IH. cbn [app]. rewrite <- app_assoc. reflexivity. Qed.
 
 Lemma pp_flat : forall e lvl, pp lvl e = seg_toks (flat lvl e).
 Proof.
@@ -451,7 +458,7 @@ Proof.
   apply Nat.leb_le in El. split; intros Hl.
   - assert (Ho : level o = 1%nat) by (destruct o; cbn in *; lia).
     rewrite Ho in *. rewrite vals_app. apply muldiv_app; [apply IHa; lia|].
-    destruct (IHb 2%nat) as [_ ->]; [lia|]. cbn. constructor; [exact Ho|constructor].
+    destruct (IHb 2%nat) as [_ Hb2]. rewrite Hb2 by lia. cbn. constructor; [exact Ho|constructor].
   - destruct o; cbn in *; lia.
 Qed.
 
@@ -461,8 +468,8 @@ Proof. unfold seg_val. cbn [fst snd vals map std gval]. apply dapp_zero_l. Qed.
 Lemma flat_value : forall e lvl, deq (seg_val fd (flat lvl e)) (evalD fd e).
 Proof.
   induction e as [n|q|o a IHa b IHb|e IH]; intros lvl; cbn [flat evalD].
-  - unfold seg_val. cbn. apply dapp_zero_l.
-  - unfold seg_val. cbn. reflexivity.
+  - unfold seg_val. cbn [flat fst snd vals map std gval]. apply dapp_zero_l.
+  - unfold seg_val. cbn [flat fst snd vals map std gval]. apply dapp_zero_l.
   - set (sa := flat (level o) a). set (sb := flat (S (level o)) b).
     assert (E : deq (seg_val fd (fst sa, snd sa ++ (o, fst sb) :: snd sb)) (dapp o (evalD fd a) (evalD fd b))).
     { rewrite <- (IHa (level o)), <- (IHb (S (level o))). fold sa sb.
@@ -476,7 +483,7 @@ Proof.
         rewrite dapp_zero_l. reflexivity.
       - (* * or / : a is a product, b an atom *)
         assert (Ho1 : n = 0%nat) by (destruct o; cbn in Ho; lia). subst n.
-        destruct (flat_levels a 1%nat) as [Ha1 _]. rewrite <- Ho in Ha1. fold sa in Ha1. specialize (Ha1 ltac:(lia)).
+        destruct (flat_levels a 1%nat) as [Ha1 _]. fold sa in Ha1. specialize (Ha1 (le_n 1)).
         rewrite Hb2 by lia. cbn [vals map].
         assert (Hm : muldiv (vals fd (snd sa) ++ [(o, gval fd (fst sb))])).
         { apply muldiv_app; [exact Ha1|]. constructor; [exact Ho|constructor]. }
